@@ -36,6 +36,9 @@ type Solver struct {
 	Time     time.Duration
 	cache    map[string]SatResult
 	CacheHit int
+	WantCore bool
+	LastCore []*Expr
+	CoreHit  int
 	timeout  int
 }
 
@@ -72,7 +75,9 @@ func newSolver(kind string, timeoutMs int) (*Solver, error) {
 	if kind != "cvc5" {
 		s.send(fmt.Sprintf("(set-option :timeout %d)", timeoutMs))
 		s.send("(set-option :model.completion true)")
+		s.send("(set-option :produce-unsat-cores true)")
 	} else {
+		s.send("(set-option :produce-unsat-cores true)")
 		s.send("(set-logic ALL)")
 	}
 	return s, nil
@@ -238,7 +243,16 @@ func (s *Solver) Check(cs []*Expr, wantModel bool) (SatResult, Model) {
 		if c.IsTrue() {
 			continue
 		}
-		live = append(live, c)
+		dup := false
+		for _, l := range live {
+			if l == c {
+				dup = true
+				break
+			}
+		}
+		if !dup {
+			live = append(live, c)
+		}
 	}
 	if len(live) == 0 && !wantModel {
 		return Sat, Model{}
@@ -256,7 +270,11 @@ func (s *Solver) Check(cs []*Expr, wantModel bool) (SatResult, Model) {
 	}
 	s.send("(push 1)")
 	for _, c := range live {
-		s.send("(assert " + c.ref() + ")")
+		if c.Op == OpVar {
+			s.send("(assert " + c.ref() + ")")
+		} else {
+			s.send(fmt.Sprintf("(assert (! %s :named a%d))", c.ref(), c.id))
+		}
 	}
 	s.send("(check-sat)")
 	res := Unknown
@@ -306,6 +324,39 @@ func (s *Solver) Check(cs []*Expr, wantModel bool) (SatResult, Model) {
 				for i, l := range lv {
 					m[l] = vals[i] & maskB(l.W)
 				}
+			}
+		}
+	}
+	s.LastCore = nil
+	if res == Unsat && s.WantCore {
+		s.send("(get-unsat-core)")
+		txt, err := s.readSexp()
+		if err == nil {
+			byID := map[int]*Expr{}
+			for _, c := range live {
+				byID[c.id] = c
+			}
+			ok := true
+			var core []*Expr
+			for _, t := range tokenize(txt) {
+				if t == "(" || t == ")" {
+					continue
+				}
+				var id int
+				if _, e := fmt.Sscanf(t, "a%d", &id); e != nil || byID[id] == nil {
+					ok = false
+					break
+				}
+				core = append(core, byID[id])
+			}
+			if ok {
+				// unnamed (variable) assertions are always part of the context
+				for _, c := range live {
+					if c.Op == OpVar {
+						core = append(core, c)
+					}
+				}
+				s.LastCore = core
 			}
 		}
 	}
